@@ -265,3 +265,15 @@ pub fn filter_count(p: &[u8; 3]) -> usize {
 pub fn u64_pack(id: u32, n: u16) -> u64 {
     (u64::from(id) << 16) | u64::from(n)
 }
+
+pub fn clear_bits(x: u8, y: u8) -> u8 {
+    (x & !0x0F) | (!y & 0x0F)
+}
+
+pub fn crc_step(crc: u8) -> u8 {
+    if crc & 0x80 != 0 {
+        (crc << 1) ^ 0x07
+    } else {
+        crc << 1
+    }
+}
